@@ -148,7 +148,11 @@ def relabelled(rec, mode):
     return rec
 
 
+_writable = {}
+
+
 def build_dir(ctx, case):
+    _writable.clear()
     import fs.memoryfs
     from moclo.registry.base import FilesystemRegistry
     src = source_records(ctx)
@@ -172,9 +176,10 @@ def build_dir(ctx, case):
         mem.writetext(d + "/inner.gb", genbank_text(rec))
     for n in case["junk"]:
         mem.writetext(n, "not a genbank file\n")
-    if case.get("extensions"):
-        return FilesystemRegistry(mem, base, extensions=tuple(case["extensions"])), base
-    return FilesystemRegistry(mem, base), base
+    reg = FilesystemRegistry(mem, base, extensions=tuple(case["extensions"])) if case.get("extensions") \
+        else FilesystemRegistry(mem, base)
+    _writable[id(reg)] = mem            # the registry sees its directory read-only; the owner of the directory does not
+    return reg, base
 
 
 def check_dir(ctx, case):
@@ -235,6 +240,38 @@ def _check_dir(ctx, case):
                                ";".join(nm(n) + ":" + ("1" if f else "0") for n, f in listing) or ".",
                                ";".join(nm(k) for k in probes)])), case,
            reply="\t".join(["ok", ";".join(nm(k) for k in keys) or ".", found]))
+    # the directory is the registry: a plasmid file deleted behind a live registry object (after it was looked up) is
+    # gone from iteration, len, `in` and lookup alike
+    if keys:
+        k0 = keys[len(keys) // 2]
+        victims = [n_ for n_, isf in listing if isf and any(n_ == k0 + "." + "".join(map(chr, e_)).lstrip(".")
+                                                            if isinstance(e_, (list, tuple)) else n_ == k0 + "." + str(e_).lstrip(".")
+                                                            for e_ in exts)]
+        if len(victims) == 1:
+            try:
+                reg[k0]
+                _writable.pop(id(reg)).remove("/" + victims[0])
+            except Exception:  # noqa
+                victims = []
+        if len(victims) == 1:
+            still = []
+            if k0 in list(reg):
+                still.append("iteration")
+            if k0 in reg:
+                still.append("`in`")
+            try:
+                reg[k0]
+                still.append("lookup")
+            except KeyError:
+                pass
+            except Exception as e:  # noqa
+                still.append("lookup raises " + type(e).__name__)
+            if len(reg) != len(list(reg)):
+                still.append("len")
+            if still:
+                ctx.fail("directory registry: after {!r} was deleted from the directory, key {!r} is still there for {}".format(
+                    victims[0], k0, ", ".join(still)), case)
+            ctx.note("file-deleted-behind-registry")
 
 
 class ListRegistry(object):
